@@ -27,7 +27,7 @@ theorem sliceFrom_after_ascii (pre : Text) (c : Char) (post : Text) (h1 : utf8Le
 theorem c06_scoped_split (rest : Text) :
     (findChar? (· == '/') rest = none ∧ scopedSplit rest = some none) ∨
     (∃ pre post, rest = pre ++ '/' :: post ∧ findChar? (· == '@') post = none ∧
-      scopedSplit rest = some (some (rest, "latest".toList))) ∨
+      scopedSplit rest = some (some (rest, latestTag))) ∨
     (∃ pre mid ver, rest = pre ++ '/' :: (mid ++ '@' :: ver) ∧
       scopedSplit rest = some (some (pre ++ '/' :: mid, ver))) := by
   unfold scopedSplit
@@ -61,14 +61,14 @@ theorem c06_scoped_split (rest : Text) :
 
 theorem c06_jsr_never_panics (value : Text) : (jsrSpecifier value).isSome = true := by
   unfold jsrSpecifier
-  cases stripPrefix "jsr:".toList value with
+  cases stripPrefix jsrPrefix value with
   | none => rfl
   | some rest =>
     rcases c06_scoped_split rest with ⟨_, h⟩ | ⟨_, _, _, _, h⟩ | ⟨_, _, _, _, h⟩ <;> simp [h]
 
 theorem c06_npm_alias_never_panics (value : Text) : (npmAlias value).isSome = true := by
   unfold npmAlias
-  cases stripPrefix "npm:".toList value with
+  cases stripPrefix npmPrefix value with
   | none => rfl
   | some rest =>
     simp only
@@ -181,11 +181,11 @@ theorem c06_pseudo_tail_never_panics (ts : Text) : (pseudoTail ts).isSome = true
 /-- **go_mod.rs**: `line[require_pos..]` never panics -/
 theorem c06_require_tail_never_panics (line : Text) : (requireTail line).isSome = true := by
   unfold requireTail
-  cases hf : find? "require".toList line with
+  cases hf : find? requireKw line with
   | none => simp [sliceFrom]
   | some n =>
     obtain ⟨pre, post, ht, hl⟩ := find_split _ line n hf
-    have : sliceFrom line n = some ("require".toList ++ post) := by
+    have : sliceFrom line n = some (requireKw ++ post) := by
       rw [ht, ← hl, List.append_assoc]; exact sliceFrom_append _ _
     simp [this]
 
